@@ -14,6 +14,7 @@ opts (all optional):
   presim_back: number of earlier backward_simulate() calls on the same object (presim_back_rev=False: with reverse_log_information=False);
   presim_queries: after the earlier runs all read-only helpers (get_*_list, extract_*, chart/network data, print_*) are called once;
   alloc_fault: [k, n] -> an earlier run is aborted inside the allocation of step k (the n-th can_add_resources call of that step raises); the observed run continues it;
+  first_absence / first_auto_abs: with resume_from, the absence list / automatic-task flag of the part before the stop (the continuation uses `absence` / `auto_abs`);
   pause_queries: with resume_from, all read-only helpers are called once at the stop;
   resume_via_json: with resume_from, the stopped project is written to JSON, read into a new project and continued there.
 """
@@ -200,7 +201,13 @@ def run(spec, opts=None, model=None, call=None):
                 BaseTask.can_add_resources = orig
         elif opts.get("resume_from") is not None:
             # the observed run continues a run that was stopped at step resume_from (state and logs kept)
-            ex.m.project.simulate(**dict(sim_kwargs(opts), max_time=opts["resume_from"]))
+            fo = dict(opts)
+            if opts.get("first_absence") is not None:
+                fo["absence"] = opts["first_absence"]  # the part before the stop was planned with another calendar
+            if opts.get("first_auto_abs") is not None:
+                fo["auto_abs"] = opts["first_auto_abs"]  # ... and with another value of the automatic-task flag
+            first = sim_kwargs(fo)
+            ex.m.project.simulate(**dict(first, max_time=opts["resume_from"]))
             if opts.get("pause_queries"):
                 read_only_calls(ex.m.project)  # every read-only helper (queries, chart data, printing) is called once at the stop
             if opts.get("resume_via_json"):
